@@ -700,12 +700,39 @@ fn filter_block_probe(a: &mut Vec<i128>) -> String {
 /// monitor was not at the in-memory monitor's update id, or recovery failed>` (an incremental update deleted too early,
 /// written under a wrong id or not written at all shows up as a recovered monitor that is behind).
 fn persister_probe(a: &mut Vec<i128>) -> String {
-	use lightning::util::persist::MonitorUpdatingPersister;
+	use lightning::chain::chainmonitor::Persist;
+	use lightning::util::persist::{KVStoreSync, MonitorUpdatingPersister, CHANNEL_MONITOR_PERSISTENCE_PRIMARY_NAMESPACE};
 	use lightning::util::test_utils::{TestChainMonitor, TestStore};
+	use std::sync::atomic::{AtomicBool, Ordering};
+	/// the in-memory test store, able to refuse writes of full monitors on demand
+	struct FlakyStore {
+		inner: TestStore,
+		fail_monitor_writes: AtomicBool,
+	}
+	impl KVStoreSync for FlakyStore {
+		fn read(&self, p: &str, s: &str, k: &str) -> Result<Vec<u8>, lightning::io::Error> {
+			KVStoreSync::read(&self.inner, p, s, k)
+		}
+		fn write(&self, p: &str, s: &str, k: &str, buf: Vec<u8>) -> Result<(), lightning::io::Error> {
+			if p == CHANNEL_MONITOR_PERSISTENCE_PRIMARY_NAMESPACE && self.fail_monitor_writes.load(Ordering::SeqCst) {
+				return Err(lightning::io::Error::new(lightning::io::ErrorKind::Other, "injected write failure"));
+			}
+			KVStoreSync::write(&self.inner, p, s, k, buf)
+		}
+		fn remove(&self, p: &str, s: &str, k: &str, lazy: bool) -> Result<(), lightning::io::Error> {
+			KVStoreSync::remove(&self.inner, p, s, k, lazy)
+		}
+		fn list(&self, p: &str, s: &str) -> Result<Vec<String>, lightning::io::Error> {
+			KVStoreSync::list(&self.inner, p, s)
+		}
+	}
 	let max_pending = a[0] as u64;
 	let payments = a[1] as usize;
 	let chanmon_cfgs = create_chanmon_cfgs(2);
-	let stores = [TestStore::new(false), TestStore::new(false)];
+	let stores = [
+		FlakyStore { inner: TestStore::new(false), fail_monitor_writes: AtomicBool::new(false) },
+		FlakyStore { inner: TestStore::new(false), fail_monitor_writes: AtomicBool::new(false) },
+	];
 	let persisters: Vec<_> = (0..2).map(|i| MonitorUpdatingPersister::new(&stores[i], &chanmon_cfgs[i].logger, max_pending, &chanmon_cfgs[i].keys_manager,
 		&chanmon_cfgs[i].keys_manager, &chanmon_cfgs[i].tx_broadcaster, &chanmon_cfgs[i].fee_estimator)).collect();
 	let mut node_cfgs = create_node_cfgs(2, &chanmon_cfgs);
@@ -718,6 +745,7 @@ fn persister_probe(a: &mut Vec<i128>) -> String {
 	let nodes = create_network(2, &node_cfgs, &node_chanmgrs);
 	let chan = create_announced_chan_between_nodes(&nodes, 0, 1);
 	let (mut checks, mut stale) = (0u32, 0u32);
+	let cleanup_failed = core::cell::Cell::new(false);
 	let mut check = |nodes: &Vec<Node>| {
 		for i in 0..2 {
 			checks += 1;
@@ -737,6 +765,35 @@ fn persister_probe(a: &mut Vec<i128>) -> String {
 		let (s, r) = if k % 2 == 0 { (0, 1) } else { (1, 0) };
 		send_payment(&nodes[s], &vec![&nodes[r]][..], if k == 0 { 8_000_000 } else { 21_000 + k as u64 });
 		check(&nodes);
+		// a new block: the full monitor is re-written without an update (chain-sync persist), at whatever update id it is at
+		connect_blocks(&nodes[0], 1);
+		connect_blocks(&nodes[1], 1);
+		check(&nodes);
+		if k == payments / 2 {
+			// the public clean-up of superseded updates, while update files exist on top of the stored monitors
+			for p in persisters.iter() {
+				if p.cleanup_stale_updates(false).is_err() {
+					cleanup_failed.set(true);
+				}
+			}
+			check(&nodes);
+		}
+	}
+	// a full-monitor write that FAILS must not cost any update that was reported persisted: re-persist, through node 0's
+	// persister, the stored update with the highest id that is written as a full monitor, while the store refuses monitors
+	if max_pending != 0 {
+		// (one more payment and no block after it, so that the stored full monitor is behind and the updates count)
+		send_payment(&nodes[0], &vec![&nodes[1]][..], 33_000);
+		check(&nodes);
+		let upds = nodes[0].chain_monitor.monitor_updates.lock().unwrap().get(&chan.2).cloned().unwrap_or_default();
+		if let Some(upd) = upds.iter().rev().find(|u| u.update_id != u64::MAX && u.update_id % max_pending == 0) {
+			let mon = nodes[0].chain_monitor.chain_monitor.get_monitor(chan.2).unwrap();
+			stores[0].fail_monitor_writes.store(true, Ordering::SeqCst);
+			let _ = persisters[0].update_persisted_channel(mon.persistence_key(), Some(upd), &mon);
+			stores[0].fail_monitor_writes.store(false, Ordering::SeqCst);
+			drop(mon);
+			check(&nodes);
+		}
 	}
 	let node_id_1 = nodes[1].node.get_our_node_id();
 	let message = "closing".to_owned();
@@ -745,7 +802,7 @@ fn persister_probe(a: &mut Vec<i128>) -> String {
 	check_closed_broadcast(&nodes[0], 1, true);
 	check_added_monitors(&nodes[0], 1);
 	check(&nodes);
-	let out = format!("{} {}", checks, stale);
+	let out = format!("{} {}", checks, stale + cleanup_failed.get() as u32);
 	nodes[1].node.get_and_clear_pending_msg_events();
 	core::mem::forget(nodes);
 	out
